@@ -166,6 +166,30 @@ Proof.
   - destruct (e_score en <=? a); [now injection H as <- | discriminate].
 Qed.
 
+(* mate scores are stored counted from the storing node and recounted from the root when read (fix:
+   score_to_table / score_from_table): both directions stay in range *)
+Lemma score_to_table_InR s real : InR s -> 0 <= real -> InR (score_to_table s real).
+Proof.
+  intros H Hr. unfold score_to_table, TABLE_MATE_MARGIN.
+  destruct (SCORE_MAX - 1000 <? s) eqn:E1; [apply Z.ltb_lt in E1; rng|].
+  destruct (s <? SCORE_MIN + 1000) eqn:E2; [apply Z.ltb_lt in E2; rng | exact H].
+Qed.
+
+Lemma score_from_table_InR s real : InR s -> 0 <= real <= 255 -> InR (score_from_table s real).
+Proof.
+  intros H Hr. unfold score_from_table, TABLE_MATE_MARGIN.
+  destruct (SCORE_MAX - 1000 <? s) eqn:E1; [apply Z.ltb_lt in E1; rng|].
+  destruct (s <? SCORE_MIN + 1000) eqn:E2; [apply Z.ltb_lt in E2; rng | exact H].
+Qed.
+
+Lemma node_entry_some g st real en :
+  node_entry g st real = Some en ->
+  exists en0, tfind (s_tbl st) (g_hash g) = Some en0 /\ en = entry_from_table real en0.
+Proof.
+  unfold node_entry. destruct (tfind (s_tbl st) (g_hash g)) as [en0|]; cbn [option_map]; [|discriminate].
+  intros E. injection E as <-. exists en0. split; reflexivity.
+Qed.
+
 (* ---- the node ------------------------------------------------------------------------------------------------------ *)
 
 Definition node_res (r : outcome Z * sstate) : Prop :=
@@ -266,10 +290,11 @@ Proof.
     pose proof (RT_poll st HT) as HTp;
     (destruct (s_running (poll st)); cbn [negb]; [|cbn [node_res]; split; [reflexivity | exact HTp]]);
     unfold node_body;
-    (destruct (probe (tfind (s_tbl (poll st)) (g_hash g)) _ a b) as [sp|] eqn:Ep;
-     [apply probe_some in Ep; destruct Ep as (en & Ef & ->); cbn [node_res]; split;
-      [exact (proj1 (HTp _ _ Ef)) | exact HTp] |]);
-    pose proof (ArgsOK_range _ _ HA) as HAr.
+    pose proof (ArgsOK_range _ _ HA) as HAr;
+    (destruct (probe (node_entry g (poll st) real) _ a b) as [sp|] eqn:Ep;
+     [apply probe_some in Ep; destruct Ep as (en & Ef & ->); cbn [node_res];
+      apply node_entry_some in Ef; destruct Ef as (en0 & Ef & ->); split;
+      [cbn [entry_from_table e_score]; apply score_from_table_InR; [exact (proj1 (HTp _ _ Ef)) | lia] | exact HTp] |]).
   - destruct (quiescence QFUEL g a b real) as [s|] eqn:Eq; cbn [lift node_res]; [|exact HTp].
     split; [|exact HTp]. apply (quiescence_range QFUEL g a b real s); try assumption. lia.
   - destruct rem as [|r].
@@ -298,7 +323,7 @@ Proof.
            split; [exact Hal|]. unfold RT. cbn [with_tbl s_tbl].
            apply TableAll_store_node; [exact HTl|].
            unfold entry_ok. cbn [e_score e_pv e_depth].
-           split; [exact Hbl|]. split; [exact Hbest|]. lia.
+           split; [apply score_to_table_InR; [exact Hbl | lia]|]. split; [exact Hbest|]. lia.
         -- split; [reflexivity | exact HL].
         -- exact HTp.
 Qed.
